@@ -301,6 +301,66 @@ func init() {
 		}
 		return x.applyExternal(call, fn, effAlloc, recv, args, st)
 	}
+	// sort.Slice(x, less) on a local slice x, in a function whose contract declares the key with
+	// "sortkey e($elem)": (1) the comparator literal is proved to be "key(x[i]) < key(x[j])" for all indices in
+	// range (obligation sort-less), (2) afterwards x holds a permutation of its elements in ascending key
+	// order (assumed contract of package sort). Without a sortkey clause the call is opaque.
+	specialExternals["sort.Slice"] = func(x *Exec, call *ast.CallExpr, fn *types.Func, recv *Term, args []Term, st *State) []Term {
+		lit, _ := ast.Unparen(call.Args[1]).(*ast.FuncLit)
+		if x.contract == nil || len(x.contract.SortKeys) == 0 || lit == nil || !x.top().top {
+			return x.applyExternal(call, fn, effAlloc, recv, args, st)
+		}
+		keyCl := x.contract.SortKeys[0]
+		sl, ok := x.subst(types.Unalias(x.typeOf(call.Args[0]))).Underlying().(*types.Slice)
+		if !ok {
+			return x.applyExternal(call, fn, effAlloc, recv, args, st)
+		}
+		lv := x.lvalue(call.Args[0], st)
+		old := lv.load(st)
+		elemSort := x.elemOfSliceSort(old.Sort)
+		keyOf := func(s *State, el Term) Term {
+			env := x.funcEnv(s)
+			env.locals = true
+			env.binds["$elem"] = bound{el, sl.Elem()}
+			k, _ := env.eval(keyCl.Expr)
+			return k
+		}
+		less := func(a, b Term) Term {
+			if a.Sort == SStr {
+				return mk(SBool, "sless", a, b)
+			}
+			return mk(SBool, "<", a, b)
+		}
+		// (1) the comparator agrees with the declared key
+		ic, jc := x.ctx.Fresh("si", SInt), x.ctx.Fresh("sj", SInt)
+		probe := st.clone()
+		ln := x.sliceLen(old)
+		probe.assume(and(mk(SBool, "<=", intLit(0), ic), mk(SBool, "<", ic, ln), mk(SBool, "<=", intLit(0), jc), mk(SBool, "<", jc, ln)))
+		sig := x.typeOf(lit).Underlying().(*types.Signature)
+		fi := x.w.LitInfo[lit]
+		if fi == nil {
+			fi = &FuncInfo{Lit: lit, Pkg: x.top().pkg, Name: x.top().fi.Name + "$lit", Sig: sig, Encl: x.top().fi}
+		}
+		x.tryPath(func() {
+			res := x.inline(nil, fi, nil, nil, []Term{ic, jc}, probe)
+			want := less(keyOf(probe, sel(x.sliceElemsOf(old), ic)), keyOf(probe, sel(x.sliceElemsOf(old), jc)))
+			o := x.emit(probe, "sort-less", "", eq(res[0], want), keyCl.Props, "the comparator handed to sort.Slice orders by the declared key: "+keyCl.Text, call.Pos())
+			o.ClauseText = keyCl.Text
+		})
+		// (2) the sorted slice
+		ne := x.ctx.Fresh("sorted", arraySort(SInt, elemSort))
+		nv := x.mkSlice(elemSort, ne, ln, x.sliceNonNil(old), x.sliceArr(old))
+		qa, qb := Term{"qa", SInt}, Term{"qb", SInt}
+		ka, kb := keyOf(st, sel(ne, qa)), keyOf(st, sel(ne, qb))
+		st.define(Term{fmt.Sprintf("(forall ((qa Int) (qb Int)) (! (=> (and (<= 0 qa) (< qa qb) (< qb %s)) (not %s)) :pattern ((select %s qa) (select %s qb))))", ln.S, less(kb, ka).S, ne.S, ne.S), SBool})
+		oe := x.sliceElemsOf(old).S
+		p1 := x.ctx.Fresh("perm", arraySort(SInt, SInt))
+		p2 := x.ctx.Fresh("perm", arraySort(SInt, SInt))
+		st.define(Term{fmt.Sprintf("(forall ((i Int)) (! (=> (and (<= 0 i) (< i %s)) (and (<= 0 (select %s i)) (< (select %s i) %s) (= (select %s i) (select %s (select %s i))))) :pattern ((select %s i))))", ln.S, p1.S, p1.S, ln.S, ne.S, oe, p1.S, ne.S), SBool})
+		st.define(Term{fmt.Sprintf("(forall ((i Int)) (! (=> (and (<= 0 i) (< i %s)) (and (<= 0 (select %s i)) (< (select %s i) %s) (= (select %s i) (select %s (select %s i))))) :pattern ((select %s i))))", ln.S, p2.S, p2.S, ln.S, oe, ne.S, p2.S, oe), SBool})
+		lv.store(st, nv)
+		return nil
+	}
 	// testify: Arguments is a []interface{}; Get(i) is element i (it panics in the library when i is out of
 	// range: not an obligation of the generated code), Error(i) is element i as an error (nil stays nil)
 	argGet := func(x *Exec, call *ast.CallExpr, fn *types.Func, recv *Term, args []Term, st *State) []Term {
